@@ -1520,6 +1520,30 @@ class TLSConnection(TLSRecordLayer):
                 publicKey = delegated_credential.cred.pub_key
                 signature_scheme = delegated_credential.cred.dc_cert_verify_algorithm
 
+            # the scheme must be usable with the type of key the server
+            # presented
+            scheme_name = SignatureScheme.toRepr(signature_scheme) or ""
+            if scheme_name in ("ed25519", "ed448"):
+                expected_key_type = {"ed25519": "Ed25519",
+                                     "ed448": "Ed448"}[scheme_name]
+            elif scheme_name.startswith("mldsa"):
+                expected_key_type = scheme_name
+            elif scheme_name.startswith("ecdsa_"):
+                expected_key_type = "ecdsa"
+            elif scheme_name.startswith("rsa_pss_rsae_"):
+                expected_key_type = "rsa"
+            elif scheme_name.startswith("rsa_pss_pss_"):
+                expected_key_type = "rsa-pss"
+            else:
+                expected_key_type = None
+            if expected_key_type is None or \
+                    getattr(publicKey, "key_type", None) != expected_key_type:
+                for result in self._sendError(
+                        AlertDescription.illegal_parameter,
+                        "Server selected signature algorithm that can't be "
+                        "used with its certificate"):
+                    yield result
+
             if signature_scheme in (SignatureScheme.ed25519,
                                     SignatureScheme.ed448,
                                     SignatureScheme.mldsa44,
